@@ -753,7 +753,7 @@ func (c *FnCtx) havoc(st *State, li *loopInfo) {
 			}
 		}
 		if oldAlloc != "" {
-			st.addDef("(forall ((r Int)) (! (=> (select " + oldAlloc + " r) (select " + c.alloc(st) + " r)) :pattern ((select " + oldAlloc + " r))))")
+			c.monotoneAlloc(st, oldAlloc, c.alloc(st))
 		}
 	}
 	for obj := range li.assignedVars {
@@ -780,21 +780,28 @@ func (c *FnCtx) heapAxioms(st *State, base, term string) {
 	if base == "alloc" {
 		st.addDef(not(sel(term, "0")))
 	}
+	if srt := c.heapSort[base]; strings.HasPrefix(srt, "Seq!") {
+		st.addDef("(>= (qlen" + srt + " " + term + ") 0)") // ghost sequences have non-negative length
+	}
 }
 
 func (c *FnCtx) havocAll(st *State) {
 	oldAlloc := c.alloc(st)
 	c.nfresh++
 	st.epoch = c.nfresh
+	// ghost globals (specification state) are not part of the Go heap: they survive a heap havoc
 	keepGhost := map[string]string{}
-	for k, v := range st.heap {
-		if strings.HasPrefix(k, "GH!") {
-			keepGhost[k] = v
+	for _, p := range c.prog.Pkgs {
+		for _, sf := range p.Spec {
+			for _, gh := range sf.Ghosts {
+				base := ghostBase(p, gh[0])
+				keepGhost[base] = c.h(st, base, c.ghostSort(p, gh[0]))
+			}
 		}
 	}
 	st.heap = keepGhost
 	na := c.alloc(st)
-	st.addDef("(forall ((r Int)) (! (=> (select " + oldAlloc + " r) (select " + na + " r)) :pattern ((select " + oldAlloc + " r))))")
+	c.monotoneAlloc(st, oldAlloc, na)
 }
 
 func (c *FnCtx) loopInvariants(loop ast.Stmt) []*Clause {
